@@ -13,6 +13,7 @@ import (
 	"fmt"
 	"io"
 	"os"
+	"sort"
 	"sync"
 	"testing"
 	"testing/synctest"
@@ -59,6 +60,7 @@ type StreamScenario struct {
 	Puts    []PutPlan    `json:"puts"`
 	Streams []StreamPlan `json:"streams"`
 	Yield   YieldPlan    `json:"yield"`
+	Cache   *CacheScenario `json:"cache,omitempty"` // C12b mode: drive the partial cache instead
 }
 
 type gatedStream struct {
@@ -216,6 +218,10 @@ func RunStream(t *testing.T, sc *StreamScenario, dump io.Writer) (res RunResult)
 			InstallYields(sc.Yield, rec)
 			defer UninstallYields()
 			e := &streamEngine{sc: sc, rec: rec}
+			if sc.Cache != nil {
+				e.runCache(sc.Cache, &res)
+				return
+			}
 			e.body(dir, &res)
 		})
 	}()
@@ -553,6 +559,10 @@ func tailOf(x []uint64, k int) []uint64 {
 func GenStream(prop string, seed uint64, tier string) *StreamScenario {
 	r := NewRng(seed ^ 0x57e4)
 	sc := &StreamScenario{Engine: "stream", Prop: prop, Seed: seed}
+	if prop == "C12" && r.Bool(25) {
+		sc.Cache = genCache(r)
+		return sc
+	}
 	sc.Backend = r.Pick("bolt-trimmed", "bolt-trimmed", "bolt", "memdb", "memdb")
 	sc.Chained = r.Bool(50)
 	sc.MemSize = r.Range(10, 30)
@@ -624,6 +634,28 @@ func GenStream(prop string, seed uint64, tier string) *StreamScenario {
 
 func ShrinkStream(sc *StreamScenario) []*StreamScenario {
 	var out []*StreamScenario
+	if sc.Cache != nil {
+		n := len(sc.Cache.Ops)
+		cut := func(i, j int) {
+			c := *sc
+			cc := *sc.Cache
+			cc.Ops = append(append([]CacheOp(nil), sc.Cache.Ops[:i]...), sc.Cache.Ops[j:]...)
+			c.Cache = &cc
+			out = append(out, &c)
+		}
+		if n > 8 {
+			cut(n/2, n)
+			cut(0, n/2)
+			cut(n/4, n/2)
+			cut(n/2, 3*n/4)
+		}
+		if n <= 40 {
+			for i := 0; i < n; i++ {
+				cut(i, i+1)
+			}
+		}
+		return out
+	}
 	cp := func() *StreamScenario {
 		c := *sc
 		c.Puts = append([]PutPlan(nil), sc.Puts...)
@@ -685,4 +717,131 @@ func ShrinkStream(sc *StreamScenario) []*StreamScenario {
 		}
 	}
 	return out
+}
+
+// ---------------------------------------------------------------- C12b: partial cache under floods
+
+type CacheOp struct {
+	K string `json:"k"` // app | flush
+	M int    `json:"m,omitempty"` // member index
+	R uint64 `json:"r,omitempty"` // round
+	P int    `json:"p,omitempty"` // previous-signature variant (0: the honest one)
+}
+
+type CacheScenario struct {
+	Members int       `json:"members"`
+	Flooder int       `json:"flooder"`
+	Ops     []CacheOp `json:"ops"`
+}
+
+func cachePartial(m int, r uint64, p int) *drand.PartialBeaconPacket {
+	sig := make([]byte, 98)
+	sig[0], sig[1] = byte(m>>8), byte(m)
+	for i := 2; i < len(sig); i++ {
+		sig[i] = byte(H64(uint64(m), "cp", r, p, i))
+	}
+	prev := make([]byte, 32)
+	for i := range prev {
+		prev[i] = byte(H64(uint64(p), "prev", i))
+	}
+	return &drand.PartialBeaconPacket{Round: r, PreviousSignature: prev, PartialSig: sig}
+}
+
+// runCache drives the aggregator's partial cache directly: one member floods it with
+// partials over many (round, previous signature) pairs between the others' partials.
+func (e *streamEngine) runCache(cs *CacheScenario, res *RunResult) {
+	sch, _ := crypto.SchemeFromName(crypto.DefaultSchemeID)
+	lg, _ := NewNodeLogger(e.rec, "cache", dlog.ErrorLevel+1, false, nil, nil)
+	c := beacon.VerifNewPartialCache(lg, sch)
+	type rk struct {
+		r uint64
+		p int
+	}
+	others := map[rk]map[int]bool{} // partials of members other than the flooder, per round cache
+	floodSent := 0
+	var sizeAt []int // flooder-attributable size after every 100 flood messages
+	lastFlush := uint64(0)
+	for _, op := range cs.Ops {
+		switch op.K {
+		case "flush":
+			c.FlushRounds(op.R)
+			if op.R > lastFlush {
+				lastFlush = op.R
+			}
+			for k := range others {
+				if k.r <= op.R {
+					delete(others, k)
+				}
+			}
+		case "app":
+			if op.R <= lastFlush {
+				continue
+			}
+			_ = c.Append(cachePartial(op.M, op.R, op.P))
+			if op.M != cs.Flooder {
+				k := rk{op.R, op.P}
+				if others[k] == nil {
+					others[k] = map[int]bool{}
+				}
+				others[k][op.M] = true
+			} else {
+				floodSent++
+				if floodSent%100 == 0 {
+					_, partials, _ := c.Sizes()
+					held := 0
+					for _, m := range others {
+						held += len(m)
+					}
+					sizeAt = append(sizeAt, partials-held)
+				}
+			}
+			// C12: a member's flood never evicts what the others sent
+			for k, ms := range others {
+				if got := c.RoundLen(k.r, cachePartial(0, k.r, k.p).PreviousSignature); got < len(ms) {
+					e.rec.Violate("C12", "flood-evicted-other-members-partials", "cache", "after %d partials of member %d the cache for round %d holds %d partials, %d other members had contributed", floodSent, cs.Flooder, k.r, got, len(ms))
+					return
+				}
+			}
+		}
+	}
+	// bounded per member: what the flooder occupies stops growing (plateau, measured)
+	if n := len(sizeAt); n >= 4 && sizeAt[n-1] > sizeAt[n/2-1] {
+		e.rec.Violate("C12", "partial-cache-grows-with-flood", "cache", "partials held for the flooding member: %v (per 100 flood messages)", sizeAt)
+	}
+	e.rec.Count("probe:cache_flood_partials", floodSent)
+	e.rec.Count("probe:cache_runs", 1)
+	res.NonTrivial = floodSent >= 100
+}
+
+func genCache(r *Rng) *CacheScenario {
+	cs := &CacheScenario{Members: r.Range(3, 6)}
+	cs.Flooder = r.Intn(cs.Members)
+	base := uint64(r.Range(1, 50))
+	nflood := r.Range(100, 700)
+	// honest partials for the round being aggregated (and the next), interleaved with the flood
+	type ev struct {
+		at int
+		op CacheOp
+	}
+	var evs []ev
+	for m := 0; m < cs.Members; m++ {
+		if m == cs.Flooder && r.Bool(50) {
+			evs = append(evs, ev{r.Intn(20), CacheOp{K: "app", M: m, R: base, P: 0}})
+			continue
+		}
+		if m != cs.Flooder {
+			evs = append(evs, ev{r.Intn(nflood), CacheOp{K: "app", M: m, R: base + uint64(r.Intn(2)), P: 0}})
+		}
+	}
+	for i := 0; i < nflood; i++ {
+		evs = append(evs, ev{i, CacheOp{K: "app", M: cs.Flooder, R: base + uint64(r.Intn(4)), P: 1 + i}})
+	}
+	if r.Bool(30) {
+		evs = append(evs, ev{r.Intn(nflood), CacheOp{K: "flush", R: base - 1 + uint64(r.Intn(2))}})
+	}
+	sort.SliceStable(evs, func(i, j int) bool { return evs[i].at < evs[j].at })
+	for _, x := range evs {
+		cs.Ops = append(cs.Ops, x.op)
+	}
+	return cs
 }
